@@ -171,7 +171,9 @@ RefreshFetch ==
   /\ last' = "refreshFetch"
   /\ UNCHANGED <<content, up, now, ticks, seq, rM, rU, waiter, rep, goneAt, resets, pre, prevVis, lastArg>>
 
-(* The caller's context is cancelled while source w.i is being fetched: Refresh returns the error. *)
+(* The caller's context is cancelled while source w.i is being fetched: Refresh returns the error.  A context cancelled once the
+   last source has answered changes nothing: from there the refresh runs to its publication (RefreshPublish has no other outcome;
+   the harness cancels the context at that very moment in a third of the behaviours). *)
 RefreshCancel ==
   /\ Free /\ w.pc = "refresh" /\ w.i <= N /\ ~w.auto        \* the automatic refresh runs under the background context
   /\ w' = Idle
